@@ -110,6 +110,44 @@ Proof.
   repeat split; assumption.
 Qed.
 Print Assumptions today_vpk_same_bytes.
+(* the chain sentence of the property at today's source: every lookup form of a chain over today's backends - VPK
+   members read through today's open_bin / open_str expression, bytes kept in any placement - is the specification *)
+Definition gen_kmember (c : cexpr) (m : kmember) : Prop :=
+  In (k_b m) [virtual_cfg; zip_cfg; vpk_cfg] /\\ clean_fs (k_fs m) = true /\\
+  (k_store m = None \\/ exists limit in_dir, k_b m = vpk_cfg /\\ k_store m = Some (c, limit, in_dir)).
+Theorem today_chain_every_form_spec : forall c ms q,
+  In c [vpk_open_bin_content; vpk_open_str_content] -> Forall (gen_kmember c) ms ->
+  chain_get (map k_member ms) q = chain_spec (map k_spec ms) q
+  /\\ chain_open (map k_member ms) q = chain_spec (map k_spec ms) q
+  /\\ chain_exists chain_exists_mode (map k_xmember ms) q = is_some (chain_spec (map k_spec ms) q)
+  /\\ chain_read ms q = option_map snd (chain_spec (map k_spec ms) q).
+Proof.
+  intros c ms q Hc Hms. apply c19_chain_every_form_spec; [vm_compute; reflexivity|].
+  eapply Forall_impl; [|exact Hms]. intros m [Hb [Hf Hs]]. split; [|split; [exact Hf|]].
+  - destruct Hb as [<-|[<-|[<-|[]]]]; vm_compute; reflexivity.
+  - destruct Hs as [->|[limit [in_dir [_ ->]]]]; [exact I|].
+    destruct Hc as [<-|[<-|[]]]; vm_compute; reflexivity.
+Qed.
+Print Assumptions today_chain_every_form_spec.
+(* ... and every entry today's walk_folder / iter lists is the specification's answer for the listed name *)
+Theorem today_chain_walk_every_entry_spec : forall c ms folder x,
+  In c [vpk_open_bin_content; vpk_open_str_content] -> Forall (gen_kmember c) ms -> Forall (fun m => okp (k_p m)) ms -> okp folder ->
+  In x (chain_walk_mode chain_dedup_mode chain_relmode chain_dedup_ops (map k_member ms) folder) ->
+  chain_spec (map k_spec ms) (fst x) = Some (snd x)
+  /\\ chain_exists chain_exists_mode (map k_xmember ms) (fst x) = true
+  /\\ chain_read ms (fst x) = Some (snd (snd x)).
+Proof.
+  intros c ms folder x Hc Hms Hp Hf Hin.
+  destruct (c19_chain_walk_every_entry_spec chain_exists_mode chain_dedup_ops ms folder x) as [A [_ [B C]]];
+    [vm_compute; reflexivity|vm_compute; reflexivity| |exact Hf|exact Hin|repeat split; assumption].
+  apply Forall_forall. intros m Hm.
+  destruct (proj1 (Forall_forall _ _) Hms m Hm) as [Hb [Hfs Hs]]. pose proof (proj1 (Forall_forall _ _) Hp m Hm) as Hpm.
+  split; [split; [|split; [exact Hfs|]]|split; [|exact Hpm]].
+  - destruct Hb as [<-|[<-|[<-|[]]]]; vm_compute; reflexivity.
+  - destruct Hs as [->|[limit [in_dir [_ ->]]]]; [exact I|]. destruct Hc as [<-|[<-|[]]]; vm_compute; reflexivity.
+  - destruct Hb as [<-|[<-|[<-|[]]]]; vm_compute; reflexivity.
+Qed.
+Print Assumptions today_chain_walk_every_entry_spec.
 '''
 
 BACKENDS = ['virtual', 'zip', 'vpk', 'raw']
@@ -1294,7 +1332,7 @@ def run(ck: Ck) -> None:
         fut_thm = pool.submit(ck.theorems, 'Props/C19.v')      # Print Assumptions of every theorem (its obligations are moved to the front below)
         fut_compose = pool.submit(ck.coq_scratch, ''.join(f'Require Import {i}.\n' for i in IMPORTS + ['SV.SM.FsChainProofs', 'SV.SM.FsChainCompose', 'SV.Props.C19'])
                                   + INSTANCE_THEOREM, 'inst_compose', 300)
-        fut_forms = pool.submit(ck.coq_scratch, ''.join(f'Require Import {i}.\n' for i in IMPORTS + ['SV.SM.FsChainProofs', 'SV.SM.FsChainFormsProofs', 'SV.Props.C19'])
+        fut_forms = pool.submit(ck.coq_scratch, ''.join(f'Require Import {i}.\n' for i in IMPORTS + ['SV.SM.FsChainProofs', 'SV.SM.FsChainCompose', 'SV.SM.FsChainFormsProofs', 'SV.SM.FsChainWhole', 'SV.Props.C19'])
                                 + INSTANCE_THEOREM_FORMS, 'inst_forms', 300)
         _tc = time.time()
         obs = {}
@@ -1336,8 +1374,9 @@ def run(ck: Ck) -> None:
                       'members built from virtual_cfg / zip_cfg / vpk_cfg' + ('' if rc == 0 else ': ' + out[-400:]))
         rc, out = fut_forms.result()
         ck.obligation('instance-theorem:chain_exists_and_vpk_bytes', rc == 0,
-                      'c19_chain_exists_agrees_backends at chain_exists_mode and c19_vpk_open_same_bytes at vpk_open_bin_content / '
-                      'vpk_open_str_content over virtual_cfg / zip_cfg / vpk_cfg' + ('' if rc == 0 else ': ' + out[-400:]))
+                      'c19_chain_exists_agrees_backends at chain_exists_mode, c19_vpk_open_same_bytes at vpk_open_bin_content / '
+                      'vpk_open_str_content and c19_chain_every_form_spec (every lookup form of a chain = the specification) over '
+                      'virtual_cfg / zip_cfg / vpk_cfg' + ('' if rc == 0 else ': ' + out[-400:]))
         import time as _t
         t0 = _t.time(); corr_backends(ck, root); t1 = _t.time(); corr_chain(ck, root); t2 = _t.time()
         ck.extra['stage_seconds'] = {'translate_build': round(_tb - _ta, 1), 'instance_obligations': round(_td - _tc, 1),
